@@ -182,5 +182,8 @@ pub fn payload_str(p: &(dyn std::any::Any + Send)) -> String {
 
 /// Install a silent panic hook before Shuttle installs its own (which chains to the previous one).
 pub fn install_silent_hook() {
+    if std::env::var("VERIF_LOUD").is_ok() {
+        return;
+    }
     std::panic::set_hook(Box::new(|_| {}));
 }
